@@ -341,9 +341,19 @@ def write_text_replay(prop, key, detail):
 def write_case_replay(prop, name, case):
     """case = (id, cfg, ops) -> .hxb replay file"""
     d = replay_dir(prop)
+    # one verdict line is printed per violation key, with the first replay recorded for it: a process keeps at most three replay
+    # files per key (a known finding observed tens of thousands of times used to write - and delete - as many files)
+    kk = (prop, re.sub(r'(-\d+)+$', '', name))
+    n, first = _replays_per_key.get(kk, (0, None))
+    if n >= 3:
+        return first
     p = os.path.join(d, re.sub(r'[^A-Za-z0-9_.@-]+', '_', name)[:80] + '.hxb')
     hxb.write_batch(p, [case])
+    _replays_per_key[kk] = (n + 1, first or p)
     return p
+
+
+_replays_per_key = {}
 
 
 def union_sigfiles(paths):
